@@ -68,7 +68,9 @@ def run_history(case, props=None):
                 out.append(('C09', f'get_cell{(x, y, z)} on {wk} {W, H, D} raised {type(ex).__name__}'))
             if len(out) > 5:
                 return out
-        for (x, y, z) in [(-1, 0, 0), (w, 0, 0), (0, -1, 0), (0, h, 0), (0, 0, -1), (0, 0, d)]:
+        outside = [(x, y, z) for x in range(-1, w + 1) for y in range(-1, h + 1) for z in range(-1, d + 1)
+                   if not (0 <= x < w and 0 <= y < h and 0 <= z < d)]
+        for (x, y, z) in outside:
             try:
                 env.get_cell(x, y, z)
                 out.append(('C09', f'get_cell{(x, y, z)} outside the grid {W, H, D} was accepted'))
